@@ -50,7 +50,7 @@ func c11Groups(tier string) []core.Group {
 }
 
 func c11OpType(c *core.Ctx, op string, t reflect.Type) {
-	lays := gen.RowLayouts
+	lays := gen.ElemLayouts
 	vcs := []string{"eqmix", "small", "edge"}
 	if model.IsFloat(t) || model.IsComplex(t) {
 		vcs = append(vcs, "nonfin")
